@@ -93,41 +93,10 @@ Qed.
 (* ------------------------------------------------------------------ *)
 (* Agreement of the code with the specification                         *)
 
-(* in scope, the code differs from the specification exactly on [known_deviation] *)
-Theorem deviations_exact : forall c, in_scope c = true ->
-  (identify_model c <> spec c <-> known_deviation c = true).
-Proof.
-  intros c Hs.
-  assert (H : implb (in_scope c) (Bool.eqb (negb (outcome_eqb (identify_model c) (spec c))) (known_deviation c)) = true).
-  { revert c Hs. intros c _. revert c. apply sweep. vm_compute. reflexivity. }
-  rewrite Hs in H. cbn in H. apply eqb_prop in H. rewrite <- H.
-  rewrite negb_true_iff. symmetry. apply outcome_eqb_neq.
-Qed.
-
-Theorem agree_partial : forall c, in_scope c = true -> known_deviation c = false ->
-  identify_model c = spec c.
-Proof.
-  intros c Hs Hd. apply outcome_eqb_eq.
-  destruct (outcome_eqb (identify_model c) (spec c)) eqn:E; [reflexivity|].
-  apply outcome_eqb_neq in E. apply (deviations_exact c Hs) in E. congruence.
-Qed.
-
-(* the full-strength statement fails on today's code:
-   swh identify -r --no-dereference <link to a directory> *)
-Definition dev_witness : cfg := mkCfg ALinkDir TAuto false true true VNone false.
-
-Theorem agree_refuted : exists c, in_scope c = true /\ in_scope_literal c = true /\
-  identify_model c = Print ODirAtLinkTarget false true true /\
-  spec c = Print OLinkText false true false /\ identify_model c <> spec c.
-Proof.
-  exists dev_witness. repeat split; try (vm_compute; reflexivity). vm_compute. discriminate.
-Qed.
-
-(* with `-r` honouring --no-dereference the agreement would be total *)
-Theorem agree_repaired : forall c, in_scope c = true -> identify_repaired c = spec c.
+Theorem agree : forall c, in_scope c = true -> identify_model c = spec c.
 Proof.
   intros c Hs. apply outcome_eqb_eq.
-  assert (H : implb (in_scope c) (outcome_eqb (identify_repaired c) (spec c)) = true).
+  assert (H : implb (in_scope c) (outcome_eqb (identify_model c) (spec c)) = true).
   { revert c Hs. intros c _. revert c. apply sweep. vm_compute. reflexivity. }
   rewrite Hs in H. exact H.
 Qed.
@@ -169,23 +138,23 @@ Definition verify_supported (c : cfg) : bool :=
   negb (rec_effective c) && negb (is_origin_obj (fst (designated c)) && match ver c with VMatch => true | _ => false end).
 
 Definition verify_exit_check (c : cfg) : bool :=
-  implb (in_scope c && negb (known_deviation c))
+  implb (in_scope c)
     (match ver c with
      | VNone => negb (outcome_eqb (identify_model c) Exit0) && negb (outcome_eqb (identify_model c) Exit1)
      | VMatch => if verify_supported c then outcome_eqb (identify_model c) Exit0 else outcome_eqb (identify_model c) Usage
      | VNonMatch => if verify_supported c then outcome_eqb (identify_model c) Exit1 else outcome_eqb (identify_model c) Usage
      end).
 
-Theorem verify_exit : forall c, in_scope c = true -> known_deviation c = false ->
+Theorem verify_exit : forall c, in_scope c = true ->
   (identify_model c = Exit0 -> ver c = VMatch) /\
   (identify_model c = Exit1 -> ver c = VNonMatch) /\
   (ver c = VMatch -> verify_supported c = true -> identify_model c = Exit0) /\
   (ver c = VNonMatch -> verify_supported c = true -> identify_model c = Exit1) /\
   (ver c <> VNone -> verify_supported c = false -> identify_model c = Usage).
 Proof.
-  intros c Hs Hd.
-  assert (H : verify_exit_check c = true) by (revert c Hs Hd; intros c _ _; revert c; apply sweep; vm_compute; reflexivity).
-  unfold verify_exit_check in H. rewrite Hs, Hd in H. cbn [negb andb implb] in H.
+  intros c Hs.
+  assert (H : verify_exit_check c = true) by (revert c Hs; intros c _; revert c; apply sweep; vm_compute; reflexivity).
+  unfold verify_exit_check in H. rewrite Hs in H. cbn [negb andb implb] in H.
   destruct (ver c) eqn:Ev.
   - apply andb_prop in H as [H0 H1]. rewrite negb_true_iff in H0, H1.
     apply outcome_eqb_neq in H0. apply outcome_eqb_neq in H1.
@@ -210,7 +179,7 @@ Qed.
 (* What is printed                                                     *)
 
 Definition print_check (c : cfg) : bool :=
-  implb (in_scope c && negb (known_deviation c))
+  implb (in_scope c)
     (match identify_model c with
      | Print o ex sh ls =>
          obj_eqb o (fst (designated c)) && Bool.eqb ex (snd (designated c)) && Bool.eqb sh (fname c)
@@ -218,14 +187,14 @@ Definition print_check (c : cfg) : bool :=
      | _ => true
      end).
 
-Theorem print_designated : forall c o ex sh ls, in_scope c = true -> known_deviation c = false ->
+Theorem print_designated : forall c o ex sh ls, in_scope c = true ->
   identify_model c = Print o ex sh ls ->
   (o, ex) = designated c /\ sh = fname c /\ ls = rec_effective c /\
   (ls = true -> is_dir_obj o = true) /\ (ex = true -> is_dir_obj o = true /\ excl c = true).
 Proof.
-  intros c o ex sh ls Hs Hd Hp.
-  assert (H : print_check c = true) by (revert c Hs Hd Hp; intros c _ _ _; revert c; apply sweep; vm_compute; reflexivity).
-  unfold print_check in H. rewrite Hs, Hd, Hp in H. cbn [negb andb implb] in H.
+  intros c o ex sh ls Hs Hp.
+  assert (H : print_check c = true) by (revert c Hs Hp; intros c _ _; revert c; apply sweep; vm_compute; reflexivity).
+  unfold print_check in H. rewrite Hs, Hp in H. cbn [negb andb implb] in H.
   apply andb_prop in H as [H H6]. apply andb_prop in H as [H H5]. apply andb_prop in H as [H H4].
   apply andb_prop in H as [H H3]. apply andb_prop in H as [H1 H2].
   apply obj_eqb_eq in H1. apply eqb_prop in H2. apply eqb_prop in H3. apply eqb_prop in H4.
@@ -239,50 +208,69 @@ Proof.
 Qed.
 
 (* ------------------------------------------------------------------ *)
-(* The three repaired behaviours, as refutations of the old code        *)
+(* The four repaired behaviours, as refutations of the old code         *)
 
-Theorem agree_refuted_old_realpath : exists c, in_scope c = true /\ known_deviation c = false /\
+Theorem agree_refuted_old_realpath : exists c, in_scope c = true /\
   nondefault c = 0 /\ identify_old_realpath c = Crash CrTypeError /\
   spec c = Print ODirAtLinkTarget false true false /\ identify_model c = spec c.
 Proof. exists (mkCfg ALinkDir TAuto true true false VNone false). repeat split; vm_compute; reflexivity. Qed.
 
-Theorem agree_refuted_old_rectype : exists c, in_scope c = true /\ known_deviation c = false /\
+Theorem agree_refuted_old_rectype : exists c, in_scope c = true /\
   identify_old_rectype c = Usage /\
   spec c = Print ODirAtPath false true true /\ identify_model c = spec c.
 Proof. exists (mkCfg ADir TDirectory true true true VNone false). repeat split; vm_compute; reflexivity. Qed.
 
-Theorem agree_refuted_old_autolink : exists c, in_scope c = true /\ known_deviation c = false /\
+Theorem agree_refuted_old_autolink : exists c, in_scope c = true /\
   identify_old_autolink c = Print ODirAtLinkTarget false true false /\
   spec c = Print OLinkText false true false /\ identify_model c = spec c.
 Proof. exists (mkCfg ALinkDir TAuto false true false VNone false). repeat split; vm_compute; reflexivity. Qed.
 
+(* swh identify -r --no-dereference <link->dir>: the directory behind the link was listed *)
+Theorem agree_refuted_old_recfollows : exists c, in_scope c = true /\ in_scope_literal c = true /\
+  identify_old_recfollows c = Print ODirAtLinkTarget false true true /\
+  spec c = Print OLinkText false true false /\ identify_model c = spec c.
+Proof. exists (mkCfg ALinkDir TAuto false true true VNone false). repeat split; vm_compute; reflexivity. Qed.
+
 (* each old behaviour broke exactly its class of in-scope configurations *)
 Definition old_exact_check (c : cfg) : bool :=
-  implb (in_scope c && negb (known_deviation c))
+  implb (in_scope c)
     (Bool.eqb (negb (outcome_eqb (identify_old_realpath c) (spec c))) (old_realpath_class c)
      && Bool.eqb (negb (outcome_eqb (identify_old_rectype c) (spec c))) (old_rectype_class c)
-     && Bool.eqb (negb (outcome_eqb (identify_old_autolink c) (spec c))) (old_autolink_class c)).
+     && Bool.eqb (negb (outcome_eqb (identify_old_autolink c) (spec c))) (old_autolink_class c)
+     && Bool.eqb (negb (outcome_eqb (identify_old_recfollows c) (spec c))) (old_recfollows_class c)).
 
-Theorem old_deviations_exact : forall c, in_scope c = true -> known_deviation c = false ->
+Theorem old_deviations_exact : forall c, in_scope c = true ->
   (identify_old_realpath c <> spec c <-> old_realpath_class c = true) /\
   (identify_old_rectype c <> spec c <-> old_rectype_class c = true) /\
-  (identify_old_autolink c <> spec c <-> old_autolink_class c = true).
+  (identify_old_autolink c <> spec c <-> old_autolink_class c = true) /\
+  (identify_old_recfollows c <> spec c <-> old_recfollows_class c = true).
 Proof.
-  intros c Hs Hd.
-  assert (H : old_exact_check c = true) by (revert c Hs Hd; intros c _ _; revert c; apply sweep; vm_compute; reflexivity).
-  unfold old_exact_check in H. rewrite Hs, Hd in H. cbn [negb andb implb] in H.
-  apply andb_prop in H as [H H3]. apply andb_prop in H as [H1 H2].
-  apply eqb_prop in H1. apply eqb_prop in H2. apply eqb_prop in H3.
-  rewrite <- H1, <- H2, <- H3. rewrite !negb_true_iff.
+  intros c Hs.
+  assert (H : old_exact_check c = true) by (revert c Hs; intros c _; revert c; apply sweep; vm_compute; reflexivity).
+  unfold old_exact_check in H. rewrite Hs in H. cbn [negb andb implb] in H.
+  apply andb_prop in H as [H H4]. apply andb_prop in H as [H H3]. apply andb_prop in H as [H1 H2].
+  apply eqb_prop in H1. apply eqb_prop in H2. apply eqb_prop in H3. apply eqb_prop in H4.
+  rewrite <- H1, <- H2, <- H3, <- H4. rewrite !negb_true_iff.
   repeat split; intros H; apply outcome_eqb_neq; exact H.
 Qed.
+
+Theorem old_classes_sizes :
+  length (filter (fun c => in_scope c && old_realpath_class c) all_cfgs) = 24 /\
+  length (filter (fun c => in_scope c && old_rectype_class c) all_cfgs) = 20 /\
+  length (filter (fun c => in_scope c && old_autolink_class c) all_cfgs) = 16 /\
+  length (filter (fun c => in_scope c && old_recfollows_class c) all_cfgs) = 24.
+Proof. repeat split; vm_compute; reflexivity. Qed.
 
 (* ------------------------------------------------------------------ *)
 (* The stricter reading                                                *)
 
+Definition origin_id_given (c : cfg) : bool :=
+  is_origin_obj (fst (designated c)) && match ver c with VMatch => true | _ => false end.
+
 Definition strict_class (c : cfg) : bool :=
-  (recur c && negb (rec_effective c) && (has_verify c || negb (type_is_auto_or_directory (ty c))))
-  || (is_origin_obj (fst (designated c)) && negb (recur c) && match ver c with VMatch => true | _ => false end).
+  (recur c && negb (rec_effective c) && (has_verify c || negb (type_is_auto_or_directory (ty c)))
+   && negb (origin_id_given c))
+  || (origin_id_given c && negb (recur c)).
 
 (* [spec_strict] and [spec] differ exactly on: -r on a non-directory together
    with --verify or an explicit non-directory type (the code ignores -r with a
@@ -310,18 +298,16 @@ Proof. repeat split; vm_compute; reflexivity. Qed.
 (* Non-vacuity                                                         *)
 
 Theorem in_scope_satisfiable :
-  (exists c, in_scope c = true /\ known_deviation c = false /\ nondefault c >= 3 /\
+  (exists c, in_scope c = true /\ nondefault c >= 3 /\
              identify_model c = Print ODirAtLinkTarget true false true /\ spec c = identify_model c) /\
-  (exists c, in_scope c = true /\ known_deviation c = false /\ nondefault c >= 3 /\
+  (exists c, in_scope c = true /\ nondefault c >= 3 /\
              identify_model c = Exit0 /\ spec c = Exit0) /\
   length (filter in_scope all_cfgs) = 720 /\
-  length (filter (fun c => in_scope c && negb (known_deviation c)) all_cfgs) = 696 /\
   length (filter in_scope_literal all_cfgs) = 672.
 Proof.
-  split; [|split; [|split; [|split]]].
+  split; [|split; [|split]].
   - exists (mkCfg ALinkDir TDirectory true false true VNone true). repeat split; vm_compute; try reflexivity. lia.
   - exists (mkCfg AGitRepo TSnapshot false false false VMatch true). repeat split; vm_compute; try reflexivity. lia.
-  - vm_compute; reflexivity.
   - vm_compute; reflexivity.
   - vm_compute; reflexivity.
 Qed.
